@@ -65,7 +65,18 @@ module Nat =
     | S n' -> (match m with
                | O -> false
                | S m' -> leb n' m')
+
+  (** val ltb : nat -> nat -> bool **)
+
+  let ltb n m =
+    leb (S n) m
  end
+
+(** val rev : 'a1 list -> 'a1 list **)
+
+let rec rev = function
+| [] -> []
+| x :: l' -> app (rev l') (x :: [])
 
 (** val map : ('a1 -> 'a2) -> 'a1 list -> 'a2 list **)
 
@@ -750,3 +761,223 @@ let rec spec_pkgs exported fuel pkgs idx facts =
     (((has_flow_b c), (nil_set c)),
     (non_set c)) :: (spec_pkgs exported fuel rest (S idx)
                       (app facts ((idx, f) :: [])))
+
+type pos = { p_file : nat; p_line : nat; p_col : nat; p_off : nat;
+             p_valid : bool }
+
+type node = { n_ppos : pos; n_cpos : pos; n_prepr : nat; n_crepr : nat }
+
+type conflict0 = { c_id : nat; c_pos : pos; c_nil : node list;
+                   c_nonnil : node list; c_func : nat option; c_test : 
+                   bool }
+
+type range = { r_file : nat; r_from : nat; r_to : nat }
+
+(** val pos_key : pos -> ((nat * nat) * nat) option **)
+
+let pos_key p =
+  if p.p_valid then Some ((p.p_file, p.p_line), p.p_col) else None
+
+(** val node_key :
+    node -> ((((nat * nat) * nat) option * nat) * nat) * ((nat * nat) * nat)
+    option **)
+
+let node_key n =
+  ((((pos_key n.n_cpos), n.n_prepr), n.n_crepr),
+    (if (&&) (negb n.n_cpos.p_valid) n.n_ppos.p_valid
+     then pos_key n.n_ppos
+     else None))
+
+type gkey =
+| KPath of (((((nat * nat) * nat) option * nat) * nat) * ((nat * nat) * nat)
+           option) list
+| KProd of ((nat * nat) * nat) * nat
+| KFunc of nat option * nat * nat
+
+(** val group_key : conflict0 -> gkey **)
+
+let group_key c =
+  match c.c_nil with
+  | [] ->
+    (match c.c_nonnil with
+     | [] -> KPath (map node_key c.c_nil)
+     | p :: l ->
+       (match l with
+        | [] ->
+          (match pos_key p.n_ppos with
+           | Some k -> KProd (k, p.n_prepr)
+           | None -> KFunc (c.c_func, p.n_prepr, p.n_crepr))
+        | _ :: _ -> KPath (map node_key c.c_nil)))
+  | _ :: _ -> KPath (map node_key c.c_nil)
+
+(** val opt3_eqb :
+    ((nat * nat) * nat) option -> ((nat * nat) * nat) option -> bool **)
+
+let opt3_eqb a b =
+  match a with
+  | Some p ->
+    let (p0, z) = p in
+    let (x, y) = p0 in
+    (match b with
+     | Some p1 ->
+       let (p2, z') = p1 in
+       let (x', y') = p2 in
+       (&&) ((&&) (Nat.eqb x x') (Nat.eqb y y')) (Nat.eqb z z')
+     | None -> false)
+  | None -> (match b with
+             | Some _ -> false
+             | None -> true)
+
+(** val nk_eqb :
+    (((((nat * nat) * nat) option * nat) * nat) * ((nat * nat) * nat) option)
+    -> (((((nat * nat) * nat) option * nat) * nat) * ((nat * nat) * nat)
+    option) -> bool **)
+
+let nk_eqb a b =
+  let (p, a4) = a in
+  let (p0, a3) = p in
+  let (a1, a2) = p0 in
+  let (p1, b4) = b in
+  let (p2, b3) = p1 in
+  let (b1, b2) = p2 in
+  (&&) ((&&) ((&&) (opt3_eqb a1 b1) (Nat.eqb a2 b2)) (Nat.eqb a3 b3))
+    (opt3_eqb a4 b4)
+
+(** val list_eqb : ('a1 -> 'a1 -> bool) -> 'a1 list -> 'a1 list -> bool **)
+
+let rec list_eqb eqb0 l l' =
+  match l with
+  | [] -> (match l' with
+           | [] -> true
+           | _ :: _ -> false)
+  | x :: r ->
+    (match l' with
+     | [] -> false
+     | y :: r' -> (&&) (eqb0 x y) (list_eqb eqb0 r r'))
+
+(** val optnat_eqb : nat option -> nat option -> bool **)
+
+let optnat_eqb a b =
+  match a with
+  | Some x -> (match b with
+               | Some y -> Nat.eqb x y
+               | None -> false)
+  | None -> (match b with
+             | Some _ -> false
+             | None -> true)
+
+(** val gkey_eqb : gkey -> gkey -> bool **)
+
+let gkey_eqb a b =
+  match a with
+  | KPath l -> (match b with
+                | KPath l' -> list_eqb nk_eqb l l'
+                | _ -> false)
+  | KProd (p, r) ->
+    (match b with
+     | KProd (p', r') -> (&&) (opt3_eqb (Some p) (Some p')) (Nat.eqb r r')
+     | _ -> false)
+  | KFunc (f, p, c) ->
+    (match b with
+     | KFunc (f', p', c') ->
+       (&&) ((&&) (optnat_eqb f f') (Nat.eqb p p')) (Nat.eqb c c')
+     | _ -> false)
+
+type diag = { d_head : conflict0; d_similar : conflict0 list }
+
+(** val add_to_group : diag list -> conflict0 -> diag list **)
+
+let rec add_to_group gs c =
+  match gs with
+  | [] -> { d_head = c; d_similar = [] } :: []
+  | g :: gs' ->
+    if gkey_eqb (group_key g.d_head) (group_key c)
+    then { d_head = g.d_head; d_similar = (app g.d_similar (c :: [])) } :: gs'
+    else g :: (add_to_group gs' c)
+
+(** val group_conflicts : conflict0 list -> diag list **)
+
+let group_conflicts cs =
+  fold_left add_to_group cs []
+
+(** val no_grouping : conflict0 list -> diag list **)
+
+let no_grouping cs =
+  map (fun c -> { d_head = c; d_similar = [] }) cs
+
+(** val conflict_leb : conflict0 -> conflict0 -> bool **)
+
+let conflict_leb a b =
+  if Nat.ltb a.c_pos.p_file b.c_pos.p_file
+  then true
+  else if Nat.ltb b.c_pos.p_file a.c_pos.p_file
+       then false
+       else Nat.leb a.c_pos.p_off b.c_pos.p_off
+
+(** val insert_c : conflict0 -> conflict0 list -> conflict0 list **)
+
+let rec insert_c x l = match l with
+| [] -> x :: []
+| y :: l' -> if conflict_leb x y then x :: l else y :: (insert_c x l')
+
+(** val sort_conflicts : conflict0 list -> conflict0 list **)
+
+let sort_conflicts l =
+  fold_right insert_c [] l
+
+(** val in_range : range -> conflict0 -> bool **)
+
+let in_range r c =
+  (&&)
+    ((&&) (Nat.eqb c.c_pos.p_file r.r_file) (Nat.leb r.r_from c.c_pos.p_line))
+    (Nat.leb c.c_pos.p_line r.r_to)
+
+(** val suppressed : range list -> bool -> conflict0 -> bool **)
+
+let suppressed rs excl_test c =
+  (||) (existsb (fun r -> in_range r c) rs) ((&&) excl_test c.c_test)
+
+(** val diagnostics :
+    bool -> range list -> bool -> conflict0 list -> diag list **)
+
+let diagnostics grouping rs excl_test cs =
+  let kept =
+    filter (fun c -> negb (suppressed rs excl_test c)) (sort_conflicts cs)
+  in
+  if grouping then group_conflicts kept else no_grouping kept
+
+(** val last_cpos : conflict0 -> ((nat * nat) * nat) option **)
+
+let last_cpos c =
+  match rev c.c_nonnil with
+  | [] -> None
+  | n :: _ -> pos_key n.n_cpos
+
+(** val shown_places : diag -> ((nat * nat) * nat) option list **)
+
+let shown_places d =
+  map last_cpos d.d_similar
+
+(** val in_test : nat list -> pos -> bool **)
+
+let in_test tf p =
+  (&&) p.p_valid (existsb (Nat.eqb p.p_file) tf)
+
+(** val involves_test : nat list -> conflict0 -> bool **)
+
+let involves_test tf c =
+  (||) (in_test tf c.c_pos)
+    (existsb (fun n -> (||) (in_test tf n.n_ppos) (in_test tf n.n_cpos))
+      (app c.c_nil c.c_nonnil))
+
+(** val set_test : nat list -> conflict0 -> conflict0 **)
+
+let set_test tf c =
+  { c_id = c.c_id; c_pos = c.c_pos; c_nil = c.c_nil; c_nonnil = c.c_nonnil;
+    c_func = c.c_func; c_test = (involves_test tf c) }
+
+(** val diagnostics_tf :
+    bool -> range list -> bool -> nat list -> conflict0 list -> diag list **)
+
+let diagnostics_tf grouping rs excl_test tf cs =
+  diagnostics grouping rs excl_test (map (set_test tf) cs)
